@@ -87,6 +87,7 @@ pub enum Op {
     Ingest { items: Vec<(u8, IKind)> },
     Fifo { limit: u64, ttl: Option<u64>, w: Wm },
     Tick { secs: u64 },
+    TickMs { ms: u64 },
     Snap,
     Unsnap,
     Reopen,
@@ -154,6 +155,7 @@ impl Op {
             Op::Ingest { .. } => "Ingest",
             Op::Fifo { .. } => "Fifo",
             Op::Tick { .. } => "Tick",
+            Op::TickMs { .. } => "TickMs",
             Op::Snap => "Snap",
             Op::Unsnap => "Unsnap",
             Op::Reopen => "Reopen",
@@ -195,6 +197,7 @@ impl Op {
             Op::Ingest { items } => format!("Ing{items:?}"),
             Op::Fifo { limit, ttl, w: x } => format!("Fifo({limit},{ttl:?},{})", w(x)),
             Op::Tick { secs } => format!("Tick({secs})"),
+            Op::TickMs { ms } => format!("Tick({ms}ms)"),
             Op::Snap => "S".into(),
             Op::Unsnap => "U".into(),
             Op::Reopen => "O".into(),
